@@ -26,7 +26,20 @@ class V:
     note: str = ''
 
 
-def _apply(root: str, v: V) -> bool:
+@dataclass
+class P:
+    """A source variant given as a unified diff against the repository root (an archived seeded change or refactoring)."""
+    id: str
+    patch: str
+    expect: str | None = None      # 'any' for seeded changes (some new refutation), None for behaviour-preserving patches
+    file: str = ''
+
+
+def _apply(root: str, v) -> bool:
+    if isinstance(v, P):
+        import subprocess
+        r = subprocess.run(['patch', '-p1', '-s', '-f', '--no-backup-if-mismatch', '-i', v.patch], cwd=root, capture_output=True, text=True)
+        return r.returncode == 0
     p = os.path.join(root, 'src', 'bespokeasm', v.file)
     if not os.path.exists(p):
         return False
@@ -70,6 +83,15 @@ def run_selftest(prop: str, repo_root: str, ctx=None, jobs: int | None = None) -
     mod = importlib.import_module(f'rules.{prop.lower()}')
     mutants = list(getattr(mod, 'MUTANTS', []))
     twins = list(getattr(mod, 'TWINS', []))
+    # archived changes written by independent sub-agents: seeded breaks of this property, and behaviour-preserving refactorings
+    import glob
+    vdir = os.path.dirname(os.path.dirname(os.path.abspath(__file__)))
+    for pth in sorted(glob.glob(os.path.join(vdir, 'seeded', f'{prop}-*', 'patch.diff'))):
+        sid = os.path.basename(os.path.dirname(pth))
+        mutants.append(P(f'seed:{sid}', pth, 'any', f'seeded/{sid}'))
+    for pth in sorted(glob.glob(os.path.join(vdir, 'refactors', '*', 'patch.diff'))):
+        rid = os.path.basename(os.path.dirname(pth))
+        twins.append(P(f'refactoring:{rid}', pth, None, f'refactors/{rid}'))
     if ctx is not None:
         base_ref = {(o.rule, o.key) for o in ctx.obligations if o.status == 'refuted'}
         base_err = {(o.rule, o.key) for o in ctx.obligations if o.status == 'error'}
@@ -94,7 +116,7 @@ def run_selftest(prop: str, repo_root: str, ctx=None, jobs: int | None = None) -
             continue
         new = ref - base_ref
         want_rule, _, want_key = (v.expect or '').partition(':')
-        hit = [x for x in new if x[0] == want_rule and (not want_key or x[1] == want_key)]
+        hit = [x for x in new if v.expect == 'any' or (x[0] == want_rule and (not want_key or x[1] == want_key))]
         if hit:
             caught += 1
             detail.append({'variant': v.id, 'kind': 'seeded-break', 'result': 'refuted', 'by': [f'{a} [{b}]' for a, b in sorted(hit)]})
